@@ -8,11 +8,11 @@ import (
 	"io"
 	"io/fs"
 	"os"
-	"time"
 	"path/filepath"
 	"sort"
 	"strings"
 	"syscall"
+	"time"
 
 	"verif.local/vs"
 )
@@ -76,10 +76,17 @@ func WriteFile(name string, data []byte, perm fs.FileMode) (err error) {
 	if Real {
 		return os.WriteFile(name, data, perm)
 	}
-	fsMon.Do("fs.Write", name, nil, func() {
+	// os.WriteFile is open(O_TRUNC), write, close: between the two steps a reader finds an empty file
+	fsMon.Do("fs.Trunc", name, nil, func() {
 		if err = dirOK(name); err != nil {
 			return
 		}
+		Files[name] = []byte{}
+	})
+	if err != nil {
+		return
+	}
+	fsMon.Do("fs.Write", name, nil, func() {
 		Files[name] = append([]byte(nil), data...)
 		Writes[name]++
 		Log = append(Log, name)
@@ -128,8 +135,10 @@ type File struct {
 	real   *os.File
 }
 
-func Create(name string) (*File, error) { return OpenFile(name, os.O_RDWR|os.O_CREATE|os.O_TRUNC, 0o666) }
-func Open(name string) (*File, error)   { return OpenFile(name, os.O_RDONLY, 0) }
+func Create(name string) (*File, error) {
+	return OpenFile(name, os.O_RDWR|os.O_CREATE|os.O_TRUNC, 0o666)
+}
+func Open(name string) (*File, error) { return OpenFile(name, os.O_RDONLY, 0) }
 
 func OpenFile(name string, flag int, perm os.FileMode) (f *File, err error) {
 	if Real {
@@ -343,19 +352,19 @@ func Remove(name string) error {
 	}
 	return os.Remove(name)
 }
-func RemoveAll(name string) error                               { return os.RemoveAll(name) }
+func RemoveAll(name string) error { return os.RemoveAll(name) }
 func Stat(name string) (os.FileInfo, error) {
 	if b, ok := Files[name]; ok && !Real {
 		return fileInfo{name, int64(len(b))}, nil
 	}
 	return os.Stat(name)
 }
-func MkdirAll(p string, m os.FileMode) error                    { return os.MkdirAll(p, m) }
-func Mkdir(p string, m os.FileMode) error                       { return os.Mkdir(p, m) }
-func Getenv(k string) string                                    { return os.Getenv(k) }
-func Exit(c int)                                                { os.Exit(c) }
-func IsNotExist(err error) bool                                 { return os.IsNotExist(err) }
-func IsExist(err error) bool                                    { return os.IsExist(err) }
-func TempDir() string                                           { return os.TempDir() }
-func Rename(a, b string) error                                  { return os.Rename(a, b) }
-func Getpid() int                                               { return os.Getpid() }
+func MkdirAll(p string, m os.FileMode) error { return os.MkdirAll(p, m) }
+func Mkdir(p string, m os.FileMode) error    { return os.Mkdir(p, m) }
+func Getenv(k string) string                 { return os.Getenv(k) }
+func Exit(c int)                             { os.Exit(c) }
+func IsNotExist(err error) bool              { return os.IsNotExist(err) }
+func IsExist(err error) bool                 { return os.IsExist(err) }
+func TempDir() string                        { return os.TempDir() }
+func Rename(a, b string) error               { return os.Rename(a, b) }
+func Getpid() int                            { return os.Getpid() }
